@@ -10,7 +10,7 @@ import udgen
 import vcommon
 
 RULE = ("a valid input set for every command (snps, closest, updown list, updown topranking fasta and csv, variants gb/gff, sam "
-        "toMultiAlign, sam toPairAlign, sam variants) is first run unchanged (must exit 0), then each listed corruption is "
+        "toMultiAlign, sam toPairAlign, sam variants, sam indels) is first run unchanged (must exit 0), then each listed corruption is "
         "applied to each applicable input file at the first, a middle and the last record: unequal row length (longer, shorter, or a header with no sequence at all), non-IUPAC "
         "symbol, empty file, missing file, header-less/empty SAM, reference vs alignment width, query vs target width, two "
         "records in --reference, empty CSV, CSV that is not updown list output, window outside 1..reference length and "
@@ -106,6 +106,7 @@ def check(ctx):
             "toma": ["sam", "toMultiAlign", "-s", samp],
             "topa": ["sam", "toPairAlign", "-s", samp, "-r", ref, "-o", outdir],
             "sam variants": ["sam", "variants", "-s", samp, "-r", ref, "-a", gff],
+            "sam indels": ["sam", "indels", "-s", samp, "--insertions-out", os.path.join(tmp, "ins.tsv"), "--deletions-out", os.path.join(tmp, "del.tsv")],
         }
         unchanged_bad = []
         for name, argv in base.items():
@@ -193,14 +194,14 @@ def check(ctx):
         # empty / missing inputs
         missing = os.path.join(tmp, "does-not-exist")
         for name, argv in base.items():
-            files = [a for a in argv if a.startswith(tmp) and a != outdir]
+            files = [a for a in argv if a.startswith(tmp) and a != outdir and not a.endswith(".tsv")]
             for f in dict.fromkeys(files):
                 runs.append(("%s: %s empty" % (name, os.path.basename(f)), sub(argv, f, empty), None))
                 runs.append(("%s: %s missing" % (name, os.path.basename(f)), sub(argv, f, missing), None))
         # SAM: header-less, header only is fine (no records) but no @SQ is refused
         nohdr = W("nohdr.sam", samgen.render_sam("REF", L, S["srecs"], header=False))
         hdonly = W("nosq.sam", b"@HD\tVN:1.6\n")
-        for name in ("toma", "topa", "sam variants"):
+        for name in ("toma", "topa", "sam variants", "sam indels"):
             runs.append((name + ": header-less SAM", sub(base[name], samp, nohdr), None))
             runs.append((name + ": SAM header without @SQ", sub(base[name], samp, hdonly), None))
             runs.append((name + ": empty SAM on stdin", [a for a in sub(base[name], samp, "stdin")], b""))
